@@ -83,9 +83,9 @@ package slug
 
 //@ func (*Packer).packWalkFn$1 -> (rerr)
 //@   opt propagate-errors
-// return 18 is the switch default "unexpected file mode": checkFileMode has already returned for every mode that is
+// the switch default "unexpected file mode": checkFileMode has already returned for every mode that is
 // not regular, directory or symlink, so the code itself never reaches it (declared for the per-return vacuity guard)
-//@   opt dead-returns=18
+//@   opt dead-return=unexpected file mode
 //@   tolerates go-slug.Packer.validSymlink#1: p.dereference
 //@   sweep
 //@   ghost $tarN Int
